@@ -13,6 +13,7 @@ for flags that are off - the regions of the recorded defects C15-F1…F4.
 -/
 import CobaVerif.Lemmas.C15
 import CobaVerif.Lemmas.C15Hist
+import CobaVerif.Lemmas.C15P4
 
 namespace Coba.C15
 
@@ -336,7 +337,73 @@ theorem pyEq_scalar_equiv (x y z : PyVal) (hx : isScalar x = true) (hy : isScala
     pyEq x x = true ∧ (pyEq x y = pyEq y x) ∧ (pyEq x y = true → pyEq y z = true → pyEq x z = true) :=
   pyEq_scalar_equiv' x y z hx hy hz
 
-/- open: `pyEq` as an equivalence on nested values (tuples/lists/dicts of scalars with duplicate-free keys) -
-   theorem pyEq_equiv_partial … ; only the scalar fragment and the float-copy step above are proved. -/
+/-- **nested values.**  On scalars nested in tuples and lists to any depth (`seqVal`: no dict inside) Python's `==` is reflexive,
+symmetric and transitive (a tuple never equals a list; 1 == 1.0 == True at every position). -/
+theorem pyEq_seq_equiv (x y z : PyVal) (hx : seqVal x = true) (hy : seqVal y = true) (hz : seqVal z = true) :
+    pyEq x x = true ∧ (pyEq x y = pyEq y x) ∧ (pyEq x y = true → pyEq y z = true → pyEq x z = true) :=
+  pyEq_seq_equiv' x y z hx hy hz
+
+example : seqVal (.tuple (.ext 1) [.int 1, .list (.ext 2) [.flt (.ext 3) (1/2), .str (.ext 4) "a"], .tuple (.ext 5) []]) = true := by decide
+
+/-- the hypothesis is about the model's value domain: a dict value with a repeated key (no Python dict has one) breaks symmetry.
+   theorem pyEq_equiv_full: the same for dicts with duplicate-free keys and as many values as keys - open (not proved). -/
+theorem pyEq_dict_dupkeys_counterexample :
+    pyEq (.dict .tmp ["a", "a"] [.int 1, .int 1]) (.dict .tmp ["a", "b"] [.int 1, .int 2]) = true ∧
+    pyEq (.dict .tmp ["a", "b"] [.int 1, .int 2]) (.dict .tmp ["a", "a"] [.int 1, .int 1]) = false :=
+  pyEq_dict_dupkeys_counterexample'
+
+/-- **decided once.**  A successful call on a wrapper whose layout / kwargs flag / format are decided - batched or not,
+whatever the learner answers - leaves them as they are. -/
+theorem predict_keeps_decided (fx : Fixes) (L : Learner) (st : State) (arg : Arg) (d : Decided) (r : Result) (st' : State)
+    (hd : st.decidedAs d) (h : predict fx L st arg = .ok (r, st')) : st'.decidedAs d :=
+  predict_keeps_decided' fx L st arg d r st' hd h
+
+/-- **whole histories, any mix of batched and unbatched calls, any learner.**  If the first call succeeds it decides a format
+`d` (layout, kwargs flag, prediction format), and the whole rest of the history is what `runFrozen` returns: every later call
+is made on a wrapper that has exactly `d` decided; only the generator state, the call-style memo and the action cache are
+threaded.  (That the decided format is then the right one for a switched wrapper is false: `mixed_*_counterexample`.) -/
+theorem history_format_decided_once (fx : Fixes) (L : Learner) (st : State) (a : Arg) (as : List Arg) (r : Result) (st' : State)
+    (h : predict fx L st a = .ok (r, st')) :
+    ∃ d, st'.decidedAs d ∧ run fx L st (a :: as) = (runFrozen fx L d st' as).map (fun rs => r :: rs) :=
+  history_format_decided_once' fx L st a as r st' h
+
+/-- … and from a decided wrapper on: `run` = `runFrozen` for every list of calls -/
+theorem run_frozen (fx : Fixes) (L : Learner) (d : Decided) (args : List Arg) (st : State) (hd : st.decidedAs d) :
+    run fx L st args = runFrozen fx L d st args :=
+  run_frozen' fx L d args st hd
+
+example : (initState 1).decidedAs ⟨.row, false, ⟨.AX, false⟩⟩ → False := by
+  intro h; exact absurd h.1 (by decide)
+
+example : ({ (initState 1) with layout := some .row, fmt := some ⟨.AX, false⟩ } : State).decidedAs ⟨.row, false, ⟨.AX, false⟩⟩ :=
+  ⟨rfl, rfl, rfl⟩
+
+/-- **parsed as on a fresh wrapper.**  On a decided wrapper the call on the argument the learner is given equals the same call
+on a wrapper that knows nothing but the decided format, the generator state and the call-style memo (`State.core`: no
+action cache, nothing else of the history); the cache is carried along unchanged. -/
+theorem predictCore_frame (fx : Fixes) (L : Learner) (st : State) (sarg : Arg) (hl : st.layout.isSome = true) :
+    predictCore fx L st sarg = (predictCore fx L st.core sarg).map (fun p => (p.1, p.2.withCache st)) :=
+  predictCore_frame' fx L st sarg hl
+
+/-- **translator obligation.**  The constants `harness/props/c15.py` reads from the CURRENT coba/safety.py on every run
+(`Generated/C15Consts.lean`: both `is_hint` key lists, `possible_pmf`'s total and tolerance, the probe strings of `has_score` and
+`score`, `make_safe`'s list) are the ones the model is written with … -/
+theorem source_constants_match :
+    Generated.C15.hintSites ≠ [] ∧ Generated.C15.hintSites.all (fun s => s == ["action", "action_prob", "pmf"]) = true ∧
+    Generated.C15.pmfTotal = 1 ∧ Generated.C15.absTolNum = 1 ∧ Generated.C15.absTolDen = 1000 ∧
+    Generated.C15.hasScoreNeedle = "score" ∧ Generated.C15.scoreNeedle = "'score'" ∧ Generated.C15.zeroOne = [0, 1] :=
+  source_constants_match'
+
+/-- … and the model's `isHint` / `hasScore` / `scoreRaises` are the source's expressions over those constants -/
+theorem isHint_generated (r : Ref) (ks : List String) (vs : List PyVal) :
+    ∀ site ∈ Generated.C15.hintSites, isHint (.dict r ks vs) = site.any (fun k => ks.contains k) :=
+  isHint_generated' r ks vs
+
+theorem hasScore_generated (f : ScoreFailure) : hasScore (.raises f) = !strContains f.msg Generated.C15.hasScoreNeedle :=
+  hasScore_generated' f
+
+theorem scoreRaises_generated (f : ScoreFailure) :
+    scoreRaises f = if f.attr && strContains f.msg Generated.C15.scoreNeedle then .coba else if f.attr then .attr else .learner :=
+  scoreRaises_generated' f
 
 end Coba.C15
